@@ -533,6 +533,57 @@ def replay_witness(ctx, summary):
     ctx.notes["witness_replay"] = res
 
 
+def export_guard_histories(ctx, rng):
+    """zero-fill-only exports (tocsr / tocsc / to_scipy_sparse / tocsr of GCXS) must refuse a non-zero fill value in EVERY state of
+    the array: fresh, cache-enabled, already exported once with fill 0 and then re-wrapped with another fill value (the copy constructor
+    shares the instance dictionary, memoised exports included), results of element-wise operations on an exported array"""
+    import sparse
+
+    def refuses(x, what):
+        try:
+            with warnings.catch_warnings():
+                warnings.simplefilter("ignore")
+                r = what(x)
+        except ValueError:
+            return None
+        except Exception as e:  # noqa: BLE001
+            return f"raised {type(e).__name__}: {str(e)[:100]} (ValueError expected)"
+        return f"returned {type(r).__name__} although the fill value is {x.fill_value!r}: the fill value is silently dropped"
+
+    exports = {"tocsr": lambda x: x.tocsr(), "tocsc": lambda x: x.tocsc(), "to_scipy_sparse": lambda x: x.to_scipy_sparse(),
+               "scipy.sparse.csr_matrix(x.to_scipy)": lambda x: x.asformat("gcxs").to_scipy_sparse()}
+    for k in range(6 if ctx.quick else 60):
+        d = gen.dense(rng, (int(rng.integers(1, 5)), int(rng.integers(1, 5))), 0, density=0.5)
+        for cache in (False, True):
+            for v in (5, -1.5, float("nan"), float("inf")):
+                base = sparse.COO.from_numpy(d.astype(np.float64))
+                if cache:
+                    base.enable_caching()
+                states = {"fresh": lambda: sparse.COO(base.coords, base.data, base.shape, fill_value=v, cache=cache)}
+                for ename, ex in exports.items():
+                    def rewrap(ex=ex):
+                        b = sparse.COO(base.coords.copy(), base.data.copy(), base.shape, cache=cache)
+                        ex(b)  # exported once while the fill value was 0
+                        return sparse.COO(b, fill_value=v)
+                    states[f"exported({ename}) then COO(x, fill_value=v)"] = rewrap
+                    def added(ex=ex):
+                        b = sparse.COO(base.coords.copy(), base.data.copy(), base.shape, cache=cache)
+                        ex(b)
+                        return b + v
+                    states[f"exported({ename}) then x + v"] = added
+                for sname, mk in states.items():
+                    try:
+                        y = mk()
+                    except Exception:  # noqa: BLE001 — constructing the state is not what is tested here
+                        continue
+                    for ename, ex in exports.items():
+                        case = {"dense": d.tolist(), "cache": cache, "fill": repr(v), "state": sname, "export": ename}
+                        ctx.case(f"C:export-guard:{ename}", case, nontrivial=True)
+                        msg = refuses(y, ex)
+                        if msg:
+                            ctx.fail("C", f"export:{ename}", case, msg, finding=findings.classify(PID, ename, case, msg))
+
+
 def run(ctx):
     ctx.trusted = TRUSTED
     ctx.assumptions = ["NumPy on the densified operand is the specification of every swept function (diagonalize: its documented definition)",
@@ -565,6 +616,7 @@ def run(ctx):
     fill_contribution(ctx)
     observed = sweep(ctx, rng)
     mixed_dtype_joins(ctx, rng)
+    export_guard_histories(ctx, rng)
     leg_a(ctx, observed, table)
     coercion(ctx)
     ctx.cov["rule"] = ("leg C: every name of sparse.__all__ that accepts an array (registry harness/c07_ops.py; the check fails if a name is "
